@@ -17,7 +17,10 @@ CONSTANTS Ids, Bk,          \* node ids and their (fixed) bucket: Bk[id]
           MaxFails, MinBkt, \* 5, bucketSize/4
           MaxChecks,        \* cap on the liveness credit (model finiteness only)
           Ops,              \* enabled operations: subset of {"add", "delete", "reval", "track"}
-          Devs              \* named deviations (regression mutants): "EvictOldest", "NoSeqCheck", "KeepLive"
+          MaxGen,           \* cap on the incarnation counter (model finiteness only)
+          Devs              \* named deviations (regression mutants): "EvictOldest", "NoSeqCheck", "KeepLive",
+                            \* "StaleByID" (seed C18-3: the result of a liveness check is matched with the table by node id,
+                            \* so a check started for an entry that has since left is applied to the id's NEW entry)
 
 Recs == [id : Ids, ip : IPs, seq : Seqs]
 NoRec == [id |-> "none"]
@@ -25,12 +28,15 @@ NoRec == [id |-> "none"]
 VARIABLES entries, repl,      \* [Buckets -> Seq(Ids)]
           rec,                \* [Ids -> Recs \cup {NoRec}]  record held for a node in the table
           checks, live, list, \* per id (meaningful for entries): liveness credit, validated flag, reval list
-          active,             \* ids with a revalidation request in flight
+          active,             \* liveness checks in flight: <<id, incarnation the check was started for>> (at most one per id)
+          gen,                \* [Ids -> 0..MaxGen] incarnation: counts how often the id entered the entries (a new tableNode object)
           fails,              \* findnode failure counter (node DB)
           tabIP, bktIP,       \* [subnet -> count], [Buckets -> [subnet -> count]]
           op                  \* label of the last operation (observation only)
-vars == <<entries, repl, rec, checks, live, list, active, fails, tabIP, bktIP, op>>
-view == <<entries, repl, rec, checks, live, list, active, fails, tabIP, bktIP>>
+vars == <<entries, repl, rec, checks, live, list, active, gen, fails, tabIP, bktIP, op>>
+view == <<entries, repl, rec, checks, live, list, active, gen, fails, tabIP, bktIP>>
+ActiveIds == {a[1] : a \in active}
+NextGen(n) == IF gen[n] < MaxGen THEN gen[n] + 1 ELSE gen[n]
 
 Subnets == {Subnet[i] : i \in IPs}
 InSeq(s, x) == \E i \in 1..Len(s) : s[i] = x
@@ -38,7 +44,7 @@ Without(s, x) == SelectSeq(s, LAMBDA y : y # x)
 
 Init == /\ entries = [b \in Buckets |-> <<>>] /\ repl = [b \in Buckets |-> <<>>]
         /\ rec = [n \in Ids |-> NoRec] /\ checks = [n \in Ids |-> 0] /\ live = [n \in Ids |-> FALSE]
-        /\ list = [n \in Ids |-> "none"] /\ active = {} /\ fails = [n \in Ids |-> 0]
+        /\ list = [n \in Ids |-> "none"] /\ active = {} /\ gen = [n \in Ids |-> 0] /\ fails = [n \in Ids |-> 0]
         /\ tabIP = [s \in Subnets |-> 0] /\ bktIP = [b \in Buckets |-> [s \in Subnets |-> 0]]
         /\ op = [name |-> "init"]
 
@@ -68,7 +74,7 @@ AddNode(r, inbound, force) ==
   LET n == r.id  b == Bk[n] IN
   /\ op' = [name |-> "add", id |-> n, inbound |-> inbound, r |-> r]
   /\ IF InSeq(entries[b], n) THEN
-        Bump(r, inbound) /\ UNCHANGED <<entries, repl, checks, active, fails>>
+        Bump(r, inbound) /\ UNCHANGED <<entries, repl, checks, active, gen, fails>>
      ELSE IF Len(entries[b]) >= BS THEN
         IF "EvictOldest" \in Devs /\ ~InSeq(repl[b], n) /\ CanAdd(b, r.ip, tabIP, bktIP) THEN
            \* deviation: the newcomer replaces the oldest entry
@@ -78,6 +84,7 @@ AddNode(r, inbound, force) ==
            /\ tabIP' = AddT(r.ip, RemT(rec[old].ip, tabIP)) /\ bktIP' = AddK(b, r.ip, RemK(b, rec[old].ip, bktIP))
            /\ checks' = [checks EXCEPT ![n] = 0, ![old] = 0] /\ live' = [live EXCEPT ![n] = FALSE, ![old] = FALSE]
            /\ list' = [list EXCEPT ![n] = "fast", ![old] = "none"]
+           /\ gen' = [gen EXCEPT ![n] = NextGen(n)]
            /\ UNCHANGED <<repl, active, fails>>
         \* addReplacement
         ELSE IF InSeq(repl[b], n) \/ ~CanAdd(b, r.ip, tabIP, bktIP) THEN UNCHANGED view
@@ -89,7 +96,7 @@ AddNode(r, inbound, force) ==
              /\ rec' = IF full THEN [rec EXCEPT ![n] = r, ![gone] = NoRec] ELSE [rec EXCEPT ![n] = r]
              /\ tabIP' = IF full THEN RemT(rec[gone].ip, t1) ELSE t1
              /\ bktIP' = IF full THEN RemK(b, rec[gone].ip, k1) ELSE k1
-             /\ UNCHANGED <<entries, checks, live, list, active, fails>>
+             /\ UNCHANGED <<entries, checks, live, list, active, gen, fails>>
      ELSE IF ~CanAdd(b, r.ip, tabIP, bktIP) THEN UNCHANGED view
      ELSE /\ entries' = [entries EXCEPT ![b] = Append(@, n)]
           /\ repl' = [repl EXCEPT ![b] = Without(@, n)]        \* as coded: no removeIP for a replacement record of n
@@ -97,6 +104,7 @@ AddNode(r, inbound, force) ==
           /\ tabIP' = AddT(r.ip, tabIP) /\ bktIP' = AddK(b, r.ip, bktIP)
           /\ checks' = [checks EXCEPT ![n] = IF force THEN 1 ELSE 0]
           /\ live' = [live EXCEPT ![n] = force] /\ list' = [list EXCEPT ![n] = "fast"]
+          /\ gen' = [gen EXCEPT ![n] = NextGen(n)]
           /\ UNCHANGED <<active, fails>>
 
 \* deleteInBucket: remove the entry, promote a random replacement
@@ -105,7 +113,7 @@ DeleteEntry(n) ==
   /\ InSeq(entries[b], n)
   /\ IF repl[b] = <<>> THEN
         /\ entries' = [entries EXCEPT ![b] = Without(@, n)]
-        /\ UNCHANGED repl
+        /\ UNCHANGED <<repl, gen>>
         /\ rec' = [rec EXCEPT ![n] = NoRec]
         /\ list' = [list EXCEPT ![n] = "none"] /\ live' = [live EXCEPT ![n] = FALSE] /\ checks' = [checks EXCEPT ![n] = 0]
      ELSE \E i \in 1..Len(repl[b]) :
@@ -115,6 +123,7 @@ DeleteEntry(n) ==
         /\ rec' = [rec EXCEPT ![n] = NoRec]
         /\ list' = [list EXCEPT ![n] = "none", ![r] = "fast"] /\ live' = [live EXCEPT ![n] = FALSE, ![r] = FALSE]
         /\ checks' = [checks EXCEPT ![n] = 0, ![r] = 0]
+        /\ gen' = [gen EXCEPT ![r] = NextGen(r)]
   /\ tabIP' = RemT(rec[n].ip, tabIP) /\ bktIP' = RemK(b, rec[n].ip, bktIP)
 
 OpAdd == /\ "add" \in Ops
@@ -124,25 +133,29 @@ OpDelete == /\ "delete" \in Ops
             /\ \E n \in Ids : /\ DeleteEntry(n) /\ op' = [name |-> "delete", id |-> n] /\ UNCHANGED <<active, fails>>
 
 OpRevalStart == /\ "reval" \in Ops
-                /\ \E n \in Ids : /\ list[n] # "none" /\ n \notin active /\ active' = active \cup {n}
+                /\ \E n \in Ids : /\ list[n] # "none" /\ n \notin ActiveIds /\ active' = active \cup {<<n, gen[n]>>}
                                   /\ op' = [name |-> "revalstart", id |-> n]
-                                  /\ UNCHANGED <<entries, repl, rec, checks, live, list, fails, tabIP, bktIP>>
+                                  /\ UNCHANGED <<entries, repl, rec, checks, live, list, gen, fails, tabIP, bktIP>>
 
 \* handleResponse; a live answer may carry a new record (RequestENR on a higher sequence number)
 OpRevalResp == /\ "reval" \in Ops
-   /\ \E n \in active, alive \in BOOLEAN, nr \in Recs \cup {NoRec} :
+   /\ \E a \in active, alive \in BOOLEAN, nr \in Recs \cup {NoRec} :
+   LET n == a[1]
+       \* the response carries the entry object the check was started for: when that object has left the entries
+       \* (its revalList is nil) the response is dropped, also when the id has a NEW entry meanwhile
+       stale == a[2] # gen[n] IN
    /\ (nr # NoRec => alive /\ nr.id = n)
-   /\ active' = active \ {n}
-   /\ op' = [name |-> "revalresp", id |-> n, alive |-> alive, credit |-> checks[n]]
-   /\ IF list[n] = "none" THEN UNCHANGED <<entries, repl, rec, checks, live, list, fails, tabIP, bktIP>>
+   /\ active' = active \ {a}
+   /\ op' = [name |-> "revalresp", id |-> n, alive |-> alive, credit |-> checks[n], stale |-> stale]
+   /\ IF list[n] = "none" \/ (stale /\ "StaleByID" \notin Devs) THEN UNCHANGED <<entries, repl, rec, checks, live, list, gen, fails, tabIP, bktIP>>
       ELSE IF ~alive THEN
            IF checks[n] \div 3 <= 0 THEN DeleteEntry(n) /\ UNCHANGED fails
            ELSE /\ checks' = [checks EXCEPT ![n] = @ \div 3] /\ list' = [list EXCEPT ![n] = "fast"]
-                /\ UNCHANGED <<entries, repl, rec, live, fails, tabIP, bktIP>>
+                /\ UNCHANGED <<entries, repl, rec, live, gen, fails, tabIP, bktIP>>
       ELSE IF nr = NoRec \/ rec[n] = NoRec
            THEN /\ checks' = [checks EXCEPT ![n] = IF @ < MaxChecks THEN @ + 1 ELSE @]
                 /\ live' = [live EXCEPT ![n] = TRUE] /\ list' = [list EXCEPT ![n] = "slow"]
-                /\ UNCHANGED <<entries, repl, rec, fails, tabIP, bktIP>>
+                /\ UNCHANGED <<entries, repl, rec, gen, fails, tabIP, bktIP>>
            ELSE \* credit and live are set first, then the record is bumped (an endpoint change clears live again)
                 LET seqOK == nr.seq > rec[n].seq \/ "NoSeqCheck" \in Devs
                     ipch  == nr.ip # rec[n].ip
@@ -155,7 +168,7 @@ OpRevalResp == /\ "reval" \in Ops
                 /\ bktIP' = IF applied /\ ipch THEN AddK(Bk[n], nr.ip, k1) ELSE bktIP
                 /\ live' = [live EXCEPT ![n] = ~(applied /\ ipch) \/ "KeepLive" \in Devs]
                 /\ list' = [list EXCEPT ![n] = IF applied /\ ipch THEN "fast" ELSE "slow"]
-                /\ UNCHANGED <<entries, repl, fails>>
+                /\ UNCHANGED <<entries, repl, gen, fails>>
 
 OpTrack == /\ "track" \in Ops
    /\ \E n \in Ids, ok \in BOOLEAN :
@@ -164,7 +177,7 @@ OpTrack == /\ "track" \in Ops
    /\ op' = [name |-> "track", id |-> n, ok |-> ok, fails |-> f, nb |-> Len(entries[Bk[n]])]
    /\ IF ~ok /\ f >= MaxFails /\ Len(entries[Bk[n]]) >= MinBkt /\ InSeq(entries[Bk[n]], n)
       THEN DeleteEntry(n) /\ UNCHANGED active
-      ELSE UNCHANGED <<entries, repl, rec, checks, live, list, active, tabIP, bktIP>>
+      ELSE UNCHANGED <<entries, repl, rec, checks, live, list, active, gen, tabIP, bktIP>>
 
 Next == OpAdd \/ OpDelete \/ OpRevalStart \/ OpRevalResp \/ OpTrack
 Spec == Init /\ [][Next]_vars
@@ -190,7 +203,7 @@ FullBucketKeepsEntries == [][(op'.name = "add" /\ Len(entries[Bk[op'.id]]) >= BS
                                   \/ repl'[Bk[op'.id]] = SubSeq(<<op'.id>> \o repl[Bk[op'.id]], 1, IF Len(repl[Bk[op'.id]]) >= MR THEN MR ELSE Len(repl[Bk[op'.id]]) + 1)]_vars
 RemovalHasCause == [][\A b \in Buckets : \A n \in EntrySet(entries, b) \ EntrySet(entries', b) :
                         \/ op'.name = "delete" /\ op'.id = n
-                        \/ op'.name = "revalresp" /\ op'.id = n /\ ~op'.alive /\ op'.credit \div 3 = 0
+                        \/ op'.name = "revalresp" /\ op'.id = n /\ ~op'.alive /\ op'.credit \div 3 = 0 /\ ~op'.stale   \* a check of THIS entry
                         \/ op'.name = "track" /\ op'.id = n /\ ~op'.ok /\ op'.fails >= MaxFails /\ op'.nb >= MinBkt]_vars
 Succession == [][\A b \in Buckets : (EntrySet(entries, b) \ EntrySet(entries', b) # {} /\ repl[b] # <<>>)
                      => /\ Len(entries'[b]) = Len(entries[b]) /\ Len(repl'[b]) = Len(repl[b]) - 1
